@@ -54,7 +54,7 @@ theorem request_spec {s s' : S} {op pid : Nat} {k : Kind} {dup : Bool} {body : N
         s' = { s with slot := upd s.slot pid (some { op := op, kind := k, n := n, phase := .writing, body := body }),
                       pidOf := upd s.pidOf op (some pid), bodyOf := upd s.bodyOf op (some body) }) ∨
      (∃ sl, s.slot pid = some sl ∧ sl.op = op ∧ s.bodyOf op = some body ∧ (sl.okBefore = true → dup = true) ∧
-        (sl.phase = .idle ∨ sl.phase = .waiting) ∧
+        sl.phase = .idle ∧
         s' = { s with slot := upd s.slot pid (some { sl with phase := .writing, fast := none }) })) := by
   unfold request at h
   split at h
@@ -86,8 +86,7 @@ theorem request_spec {s s' : S} {op pid : Nat} {k : Kind} {dup : Bool} {body : N
             right
             refine ⟨sl, hs, hc.1.1, hc.1.2, hc.2, ?_⟩
             split at h
-            · simp only [Option.some.injEq] at h; rename_i hp; exact ⟨Or.inl hp, h.symm⟩
-            · simp only [Option.some.injEq] at h; rename_i hp; exact ⟨Or.inr hp, h.symm⟩
+            · simp only [Option.some.injEq] at h; rename_i hp; exact ⟨hp, h.symm⟩
             · simp at h
 
 theorem account_spec {s s' : S} {op pid : Nat} (h : account s op pid = some s') :
@@ -115,7 +114,7 @@ theorem stepPk_spec {s s' : S} {p : Out} (h : stepPk s p = some s') :
         ∃ s1, request s op pid k dup body = some s1 ∧ account s1 op pid = some s') ∨
     (∃ op pid body, p = .subscribe op pid body ∧ request s op pid .sub (s.slot pid).isSome body = some s') ∨
     (∃ op pid body, p = .unsubscribe op pid body ∧ request s op pid .unsub (s.slot pid).isSome body = some s') ∨
-    (∃ pid sl, p = .pubrel pid ∧ s.slot pid = some sl ∧ sl.kind = .pub2 ∧ (sl.phase = .relIdle ∨ sl.phase = .relWaiting) ∧
+    (∃ pid sl, p = .pubrel pid ∧ s.slot pid = some sl ∧ sl.kind = .pub2 ∧ sl.phase = .relIdle ∧
         s' = { s with slot := upd s.slot pid (some { sl with phase := .relWriting, fast := none }) }) ∨
     (p = .other ∧ s' = s) := by
   cases p with
@@ -145,8 +144,7 @@ theorem stepPk_spec {s s' : S} {p : Out} (h : stepPk s p = some s') :
       · rename_i hk
         simp only [ne_eq, Decidable.not_not] at hk
         split at h
-        · rename_i hp; simp only [Option.some.injEq] at h; exact ⟨pid, sl, rfl, hs, hk, Or.inl hp, h.symm⟩
-        · rename_i hp; simp only [Option.some.injEq] at h; exact ⟨pid, sl, rfl, hs, hk, Or.inr hp, h.symm⟩
+        · rename_i hp; simp only [Option.some.injEq] at h; exact ⟨pid, sl, rfl, hs, hk, hp, h.symm⟩
         · simp at h
     · simp at h
   | other => simp only [stepPk, Option.some.injEq] at h; exact Or.inr (Or.inr (Or.inr (Or.inr ⟨rfl, h.symm⟩)))
